@@ -1,74 +1,143 @@
 (** C11 — Binding is all-or-nothing under any API failure or crash point.
-    Statements only; proofs are in Proofs/BinderLogic.v and Proofs/Binder.v.
+    Statements only; proofs are in Proofs/BinderLogic.v, Proofs/Binder.v (runs
+    nobody else interferes with) and Proofs/BinderEnv.v (runs with concurrent
+    store changes by other actors).
 
-    [run sc faults dp ord init] is one BindRequestReconciler.Reconcile of the
+    [run sc faults env dp ord init] is one BindRequestReconciler.Reconcile of the
     model (Model/Binder.v) from the API store [init]: [sc] is the request's spec
-    and what the code reads from the pod's immutable parts, [faults : nat ->
-    Ok | Fail | Crash] the fault oracle indexed by API-call number, [dp] the GPU
-    device plugin (answers the k-th wait with a device index or stays silent),
-    [ord] Go's map iteration order in SyncForNode.  Every theorem quantifies over
-    ALL fault vectors (any number of faults), all device-plugin and map-order
-    oracles, and - by induction on the list of GPU groups - all pod shapes:
-    whole GPU ([sc_fraction = false]), fraction (one group), multi-fraction (n
-    groups).  [wf_shape]: a shared-GPU request names at least one group, no
-    group twice, several only for a multi-fraction pod.  [init_ok]: the consumer
-    exists, is unbound and Pending, its request has not Succeeded. *)
+    and what the code reads from the pod's immutable parts; [faults : nat -> Ok |
+    Fail k | Crash] the fault oracle indexed by API-call number, where [k] is the
+    KIND of the error the API server answers with (InternalError, ServerTimeout,
+    NotFound, Conflict, AlreadyExists, Forbidden) - the program sees the kind, as
+    the Go code does through apierrors.IsNotFound etc.; [env : nat -> list estep]
+    what other actors do to the store right before API call number k (the pod is
+    bound to another node by a direct binding, deleted and terminating, deleted and
+    gone, re-created under the same name with another UID; the BindRequest is
+    deleted; the reservation pods of a group are deleted); [dp] the GPU device
+    plugin (answers the k-th wait with a device index or stays silent); [ord] Go's
+    map iteration order in SyncForNode.  Every theorem quantifies over ALL fault
+    vectors (any number of faults of any kinds), all device-plugin and map-order
+    oracles and - by induction on the list of GPU groups - all pod shapes: whole
+    GPU ([sc_fraction = false]), fraction (one group), multi-fraction (n groups).
+    Theorems 1-3 also quantify over ALL environment oracles; theorems 4-8 are
+    about runs nobody interferes with ([no_env]).  [wf_shape]: a shared-GPU
+    request names at least one group, no group twice, several only for a
+    multi-fraction pod.  [init_ok]: the consumer exists, is unbound, Pending and
+    not being deleted; its request has not Succeeded.  [read_unbound env]: nobody
+    binds the pod before the reconciler has read it (the other case is the "pod
+    already bound" no-op, theorem 6 and the refutation 12). *)
 From Coq Require Import List Arith Bool.
-From KaiV Require Import Model.Binder Model.BinderSpec Proofs.BinderLogic Proofs.Binder.
+From KaiV Require Import Model.Binder Model.BinderSpec Proofs.BinderLogic Proofs.Binder Proofs.BinderEnv.
 Import ListNotations.
 
-(** 1. All or nothing.  After the reconcile the pod is bound to the selected
-    node with its side objects in place (received-type annotation, GPU-group
-    labels, an annotated reservation pod per group, both config maps, visible
-    devices = the reserved devices, portion) - or it is unbound, the failure is
-    visible (request Failed or gone, or an error returned for requeue, or the
-    binder crashed), and, unless an injected fault hit Rollback itself, nothing
-    is left that a later sync cannot remove (no GPU-group label and no config
-    map that was not there before). *)
+(** 1. All or nothing, under every typed fault vector and every interleaving.
+    After the reconcile EITHER this reconcile's binding call went through (exactly
+    one, for the request's node): the pod the request was written for - if it is
+    still the one in the store ([same_pod]: alive, same UID) - sits on the
+    request's node AND carries the side objects that live on the pod itself
+    ([pod_side_ok]: the received-type annotation and the GPU-group labels of all
+    the request's groups - whatever the other actors did, a re-creation of the pod
+    included: Bind conditions the binding call on the UID the attempt started
+    with); and when nobody interfered ([env_quiet]) it is bound with
+    all its side objects in place (received-type annotation, GPU-group labels, an
+    annotated reservation pod per group, both config maps, visible devices = the
+    reserved devices, portion).  OR no binding call went through: the request is
+    NOT Succeeded, the failure is visible (request Failed or gone, or an error
+    returned for requeue, or the binder crashed, or the binder did nothing at all
+    because the request's Get was answered NotFound), and - unless an injected
+    fault hit Rollback itself - nothing of the attempt is left that a later sync
+    cannot remove (no GPU-group label on the pod in the store and no config map
+    that was not there before). *)
 Theorem C11_all_or_nothing :
-  forall (sc : scen) (faults : nat -> fault) (dp : nat -> option nat) (ord : nat -> list gid) (init : store),
-    wf_shape sc = true -> init_ok init ->
-    let s := fst (run sc faults dp ord init) in
-    let res := snd (run sc faults dp ord init) in
-    (bound (s_store s) = true /\ side_ok sc (s_store s) = true)
-    \/ (unbound (s_store s) = true /\ reported (s_store s) (s_crashed s) (snd res) = true
+  forall (sc : scen) (faults : nat -> fault) (env : nat -> list estep) (dp : nat -> option nat)
+         (ord : nat -> list gid) (init : store),
+    wf_shape sc = true -> init_ok init -> read_unbound env ->
+    let s := fst (run sc faults env dp ord init) in
+    let res := snd (run sc faults env dp ord init) in
+    (binds (s_log s) = 1
+     /\ (same_pod init (s_store s) ->
+         p_node (self (s_store s)) = 1 /\ pod_side_ok sc (self (s_store s)) = true)
+     /\ (env_quiet env -> bound (s_store s) = true /\ side_ok sc (s_store s) = true))
+    \/ (binds (s_log s) = 0 /\ br_succeeded (s_store s) = false
+        /\ reported (s_store s) (s_crashed s) (snd res) || nothing_done (s_log s) = true
         /\ (cleanup_unfaulted s = true -> clean init (s_store s) = true)).
-Proof. exact all_or_nothing. Qed.
+Proof. exact all_or_nothing_env. Qed.
 Print Assumptions C11_all_or_nothing.
 
-(** 2. Never elsewhere, never twice.  After every API call of the reconcile the
-    pod's server-side node is "" or the selected node; at most one binding call
+(** 2. Request Succeeded => the pod's spec.nodeName is the request's node (in the
+    store), under every typed fault vector and every interleaving: if the request
+    is Succeeded after the reconcile and the pod it was written for is still the
+    one in the store, that pod sits on the request's node. *)
+Theorem C11_succeeded_means_bound_here :
+  forall (sc : scen) (faults : nat -> fault) (env : nat -> list estep) (dp : nat -> option nat)
+         (ord : nat -> list gid) (init : store),
+    wf_shape sc = true -> init_ok init -> read_unbound env ->
+    let s := fst (run sc faults env dp ord init) in
+    br_succeeded (s_store s) = true -> same_pod init (s_store s) ->
+    p_node (self (s_store s)) = 1.
+Proof. exact succeeded_means_bound_here. Qed.
+Print Assumptions C11_succeeded_means_bound_here.
+
+(** 3. Never twice, never to another node, under every typed fault vector and every
+    interleaving: at most one binding call succeeds, no binding call names another node. *)
+Theorem C11_never_elsewhere_interleaved :
+  forall (sc : scen) (faults : nat -> fault) (env : nat -> list estep) (dp : nat -> option nat)
+         (ord : nat -> list gid) (init : store),
+    wf_shape sc = true -> init_ok init -> read_unbound env ->
+    let s := fst (run sc faults env dp ord init) in
+    binds (s_log s) <= 1 /\ existsb is_bind_elsewhere (s_log s) = false.
+Proof. exact never_elsewhere_env. Qed.
+Print Assumptions C11_never_elsewhere_interleaved.
+
+(** 4. Nobody interfering: all or nothing in the strong form.  The pod is bound to
+    the selected node with its side objects in place - or it is unbound, the
+    failure is visible, and, unless an injected fault hit Rollback itself, nothing
+    is left that a later sync cannot remove. *)
+Theorem C11_all_or_nothing_undisturbed :
+  forall (sc : scen) (faults : nat -> fault) (dp : nat -> option nat) (ord : nat -> list gid) (init : store),
+    wf_shape sc = true -> init_ok init ->
+    let s := fst (run sc faults no_env dp ord init) in
+    let res := snd (run sc faults no_env dp ord init) in
+    (bound (s_store s) = true /\ side_ok sc (s_store s) = true)
+    \/ (unbound (s_store s) = true
+        /\ reported (s_store s) (s_crashed s) (snd res) || nothing_done (s_log s) = true
+        /\ (cleanup_unfaulted s = true -> clean init (s_store s) = true)).
+Proof. exact all_or_nothing. Qed.
+Print Assumptions C11_all_or_nothing_undisturbed.
+
+(** 5. Nobody interfering: after every API call of the reconcile the pod's
+    server-side node is "" or the selected node; at most one binding call
     succeeds; no binding call names another node. *)
 Theorem C11_never_elsewhere :
   forall (sc : scen) (faults : nat -> fault) (dp : nat -> option nat) (ord : nat -> list gid) (init : store),
     wf_shape sc = true -> init_ok init ->
-    let s := fst (run sc faults dp ord init) in
+    let s := fst (run sc faults no_env dp ord init) in
     Forall (fun n => n = 0 \/ n = 1) (s_hist s) /\ binds (s_log s) <= 1
     /\ existsb is_bind_elsewhere (s_log s) = false.
 Proof. exact never_elsewhere. Qed.
 Print Assumptions C11_never_elsewhere.
 
-(** 3a. A request that already Succeeded is a no-op: one Get, the store is untouched. *)
+(** 6a. A request that already Succeeded is a no-op: one Get, the store is untouched. *)
 Theorem C11_noop_succeeded :
   forall (sc : scen) (faults : nat -> fault) (dp : nat -> option nat) (ord : nat -> list gid) (init : store) (b : brst),
     br init = Some b -> b_phase b = BSucceeded ->
-    let s := fst (run sc faults dp ord init) in
+    let s := fst (run sc faults no_env dp ord init) in
     s_store s = init /\ length (s_log s) = 1 /\ binds (s_log s) = 0.
 Proof. exact noop_succeeded. Qed.
 Print Assumptions C11_noop_succeeded.
 
-(** 3b. A request whose pod is already bound (to any node) binds nothing: no
+(** 6b. A request whose pod is already bound (to any node) binds nothing: no
     binding call succeeds and nothing but the request status and the PodBound
     condition changes (labels, annotations, node, config maps, every other pod stay). *)
 Theorem C11_noop_bound :
   forall (sc : scen) (faults : nat -> fault) (dp : nat -> option nat) (ord : nat -> list gid) (init : store),
     self_alive init = true -> p_node (self init) <> 0 ->
-    let s := fst (run sc faults dp ord init) in
+    let s := fst (run sc faults no_env dp ord init) in
     bc_frame init (s_store s) /\ binds (s_log s) = 0.
 Proof. exact noop_bound. Qed.
 Print Assumptions C11_noop_bound.
 
-(** 4. Recovery.  From the store ANY run leaves behind (any faults), once the
+(** 7. Recovery.  From the store ANY run leaves behind (any typed faults), once the
     environment has caught up (a reservation pod that was created but not
     waited for reports its device: [env_annotate]), a fault-free attempt with an
     answering device plugin ends bound with the side objects in place.
@@ -79,30 +148,67 @@ Theorem C11_recovery :
          (dp2 : nat -> option nat) (ord2 : nat -> list gid) (f : nat -> nat) (init : store),
     wf_shape sc = true -> attemptable_sc sc -> init_ok init -> node_ok init = true -> SH init ->
     (forall k, dp2 k <> None) ->
-    let st1 := s_store (fst (run sc faults dp ord init)) in
-    let st2 := s_store (fst (run sc (fun _ => Ok) dp2 ord2 (env_annotate f st1))) in
+    let st1 := s_store (fst (run sc faults no_env dp ord init)) in
+    let st2 := s_store (fst (run sc (fun _ => Ok) no_env dp2 ord2 (env_annotate f st1))) in
     bound st2 = true /\ side_ok sc st2 = true.
 Proof. exact recovery. Qed.
 Print Assumptions C11_recovery.
 
-(** The literal reading of clause 1 - "unbound => request Failed, or crashed" -
-    is refuted by the faithful model: when the status patch is itself the call
-    that fails (device plugin silent, so Bind fails on its own; Fail at call 12),
-    the pod is unbound, the binder did not crash and the request is still
-    Pending.  The reconcile returns the error (requeue); [C11_all_or_nothing] is
-    the statement with that third way of reporting added ([reported]). *)
+(** 8. What theorems 1 and 2 exclude: the VARIANT of Bind that takes a 409 Conflict
+    of the binding call for "the pod is already bound" ([run_conflict_is_success],
+    Model/Binder.v [bind_result_conflict_is_success]; NOT the code) violates
+    "Succeeded => bound here".  A whole-GPU request; (a) the pod is bound to another
+    node right before the binding call (call 5): the request ends Succeeded, the
+    pod - same UID - sits on the other node; (b) the pod is deleted (terminating)
+    right before the binding call: Succeeded, pod unbound; (c) nobody interferes,
+    the binding call is answered 409 Conflict: Succeeded, pod unbound.  The code
+    as it is ends NOT Succeeded on all three inputs. *)
+Theorem C11_conflict_is_success_refuted :
+  exists (sc : scen) (dp : nat -> option nat) (ord : nat -> list gid) (init : store),
+    wf_shape sc = true /\ init_ok init /\
+    (exists env, read_unbound env /\
+       let s := fst (run_conflict_is_success sc (fun _ => Ok) env dp ord init) in
+       br_succeeded (s_store s) = true /\ same_pod init (s_store s) /\ p_node (self (s_store s)) = 2
+       /\ br_succeeded (s_store (fst (run sc (fun _ => Ok) env dp ord init))) = false)
+    /\ (exists env, read_unbound env /\
+       let s := fst (run_conflict_is_success sc (fun _ => Ok) env dp ord init) in
+       br_succeeded (s_store s) = true /\ same_pod init (s_store s) /\ p_node (self (s_store s)) = 0
+       /\ br_succeeded (s_store (fst (run sc (fun _ => Ok) env dp ord init))) = false)
+    /\ (exists faults,
+       let s := fst (run_conflict_is_success sc faults no_env dp ord init) in
+       br_succeeded (s_store s) = true /\ same_pod init (s_store s) /\ p_node (self (s_store s)) = 0
+       /\ br_succeeded (s_store (fst (run sc faults no_env dp ord init))) = false).
+Proof.
+  exists ex_scw, ex_dp, ex_ord, ex_init.
+  destruct ex_interleaved_nonvacuous as (Hwf & Hok & _).
+  destruct ex_conflict_is_success_violates as ((A1 & A2 & A3 & A4) & (B1 & B2 & B3 & B4) & (C1 & C2 & C3 & C4) & D1 & D2 & D3).
+  split; [exact Hwf |]. split; [exact Hok |]. split; [| split].
+  - exists (ex_env_at 5 EvBindElsewhere). split; [apply ex_read_unbound; discriminate |].
+    unfold same_pod. auto 10.
+  - exists (ex_env_at 5 EvTerminate). split; [apply ex_read_unbound; discriminate |].
+    unfold same_pod. auto 10.
+  - exists (ex_conflict_at 5). unfold same_pod. auto 10.
+Qed.
+Print Assumptions C11_conflict_is_success_refuted.
+
+(** 9. The literal reading of the "nothing" case - "unbound => request Failed, or
+    crashed" - is refuted by the faithful model: when the status patch is itself
+    the call that fails (device plugin silent, so Bind fails on its own; Fail at
+    call 12), the pod is unbound, the binder did not crash and the request is
+    still Pending.  The reconcile returns the error (requeue); theorems 1 and 4
+    are the statement with that way of reporting added ([reported]). *)
 Definition C11_reported_literal : Prop :=
   forall (sc : scen) (faults : nat -> fault) (dp : nat -> option nat) (ord : nat -> list gid) (init : store),
     wf_shape sc = true -> init_ok init ->
-    let s := fst (run sc faults dp ord init) in
+    let s := fst (run sc faults no_env dp ord init) in
     unbound (s_store s) = true ->
     s_crashed s = true \/ exists b, br (s_store s) = Some b /\ b_phase b = BFailed.
 Theorem C11_reported_literal_refuted :
   exists (sc : scen) (faults : nat -> fault) (dp : nat -> option nat) (ord : nat -> list gid) (init : store),
     wf_shape sc = true /\ init_ok init /\
-    let s := fst (run sc faults dp ord init) in
+    let s := fst (run sc faults no_env dp ord init) in
     unbound (s_store s) = true /\ s_crashed s = false /\ br (s_store s) = Some (mkBR BPending 0)
-    /\ snd (snd (run sc faults dp ord init)) = true.
+    /\ snd (snd (run sc faults no_env dp ord init)) = true.
 Proof.
   exists ex_sc1, ex_fail12, ex_silent, ex_ord, ex_init.
   destruct ex_reported_literal_refuted as (A & B & C & D & E).
@@ -110,30 +216,97 @@ Proof.
 Qed.
 Print Assumptions C11_reported_literal_refuted.
 
-(** The literal reading of clause 3 for an already-bound pod - "changes
+(** 10. The literal reading of the no-op clause for an already-bound pod - "changes
     nothing" - is refuted: the code marks the request Succeeded and writes
-    PodBound=True; [C11_noop_bound] is the statement that holds. *)
+    PodBound=True; theorem 6b is the statement that holds. *)
 Theorem C11_noop_bound_literal_refuted :
   exists (sc : scen) (dp : nat -> option nat) (ord : nat -> list gid) (init : store),
     self_alive init = true /\ p_node (self init) <> 0 /\
-    s_store (fst (run sc (fun _ => Ok) dp ord init)) <> init.
+    s_store (fst (run sc (fun _ => Ok) no_env dp ord init)) <> init.
 Proof.
   exists ex_sc, ex_dp, ex_ord, ex_bound_init. split; [reflexivity |]. split; [discriminate |].
   apply ex_noop_bound_literal_refuted.
 Qed.
 Print Assumptions C11_noop_bound_literal_refuted.
 
-(** Non-vacuity: a multi-fraction request over three groups meets every
-    hypothesis; fault free it ends bound (31 API calls); with the label patch of
-    the second group failing (call 13) it ends unbound, reported, Rollback
-    (entered at call 17) unfaulted and nothing left behind. *)
+(** 11. "Request Succeeded => the pod's node is the request's node" WITHOUT the
+    hypothesis [read_unbound] is refuted by the faithful model: the pod is bound to
+    another node before the reconciler reads it (before call 1); the reconciler
+    takes the "pod already bound" no-op, reports the request Succeeded and writes
+    PodBound=True, while the pod (same UID) sits on the other node.  (A finding
+    on the code as it is; see the check's known-finding proposal.) *)
+Definition C11_succeeded_literal : Prop :=
+  forall (sc : scen) (faults : nat -> fault) (env : nat -> list estep) (dp : nat -> option nat)
+         (ord : nat -> list gid) (init : store),
+    wf_shape sc = true -> init_ok init ->
+    let s := fst (run sc faults env dp ord init) in
+    br_succeeded (s_store s) = true -> same_pod init (s_store s) -> p_node (self (s_store s)) = 1.
+Theorem C11_succeeded_literal_refuted :
+  exists (sc : scen) (env : nat -> list estep) (dp : nat -> option nat) (ord : nat -> list gid) (init : store),
+    wf_shape sc = true /\ init_ok init /\
+    let s := fst (run sc (fun _ => Ok) env dp ord init) in
+    br_succeeded (s_store s) = true /\ same_pod init (s_store s) /\ p_node (self (s_store s)) = 2
+    /\ p_cond (self (s_store s)) = Some true.
+Proof.
+  exists ex_scw, (ex_env_at 1 EvBindElsewhere), ex_dp, ex_ord, ex_init.
+  destruct ex_interleaved_nonvacuous as (Hwf & Hok & _).
+  destruct ex_bound_elsewhere_before_read as (A & B & C & D & _). auto 10.
+Qed.
+Print Assumptions C11_succeeded_literal_refuted.
+
+(** 12. What theorem 1 excludes since d9da4f6: Bind BEFORE that repair read the
+    Binding's UID precondition from the in-memory pod at the END of the attempt
+    ([run_uid_at_end], Model/Binder.v parameter [uid_at_end = true]; NOT the code
+    any more).  The pod is re-created under the same name while the attempt runs
+    (right before the config maps are written, call 9 of a fraction request; the
+    GPU-group label went to the old pod); the next patch refreshes the in-memory
+    pod, the Binding carries the NEW pod's UID, the new pod is bound to the
+    request's node WITHOUT the GPU-group label and the request is Succeeded.  The
+    code as it is, on the same input: the binding call is refused, Rollback runs
+    unfaulted, nothing is bound, the request is Failed, nothing is left. *)
+Theorem C11_side_objects_interleaved_refuted_before_repair :
+  exists (sc : scen) (env : nat -> list estep) (dp : nat -> option nat) (ord : nat -> list gid) (init : store),
+    wf_shape sc = true /\ init_ok init /\ read_unbound env /\
+    (let s := fst (run_uid_at_end sc (fun _ => Ok) env dp ord init) in
+     binds (s_log s) = 1 /\ bound (s_store s) = true /\ br_succeeded (s_store s) = true
+     /\ p_plain (self (s_store s)) = None /\ side_ok sc (s_store s) = false)
+    /\ (let s := fst (run sc (fun _ => Ok) env dp ord init) in
+        binds (s_log s) = 0 /\ unbound (s_store s) = true /\ br (s_store s) = Some (mkBR BFailed 0)
+        /\ cleanup_unfaulted s = true /\ clean init (s_store s) = true).
+Proof.
+  exists ex_sc1, (ex_env_at 9 EvRecreate), ex_dp, ex_ord, ex_init.
+  destruct ex_interleaved_nonvacuous as (_ & Hok & _).
+  destruct ex_recreated_bound_without_labels as ((A & B & C & D & E & F & _) & G).
+  split; [exact A |]. split; [exact Hok |]. split; [apply ex_read_unbound; discriminate |]. split; [auto 10 | exact G].
+Qed.
+Print Assumptions C11_side_objects_interleaved_refuted_before_repair.
+
+(** 13. Non-vacuity, nobody interfering: a multi-fraction request over three groups
+    meets every hypothesis; fault free it ends bound (31 API calls); with the
+    label patch of the second group failing (call 13) it ends unbound, reported,
+    Rollback (entered at call 17) unfaulted and nothing left behind. *)
 Theorem C11_nonvacuous :
   wf_shape ex_sc = true /\ attemptable_sc ex_sc /\ init_ok ex_init /\ node_ok ex_init = true /\ SH ex_init
-  /\ (let s := fst (run ex_sc (fun _ => Ok) ex_dp ex_ord ex_init) in
+  /\ (let s := fst (run ex_sc (fun _ => Ok) no_env ex_dp ex_ord ex_init) in
       bound (s_store s) = true /\ side_ok ex_sc (s_store s) = true /\ length (s_log s) = 31)
-  /\ (let s := fst (run ex_sc ex_fail13 ex_dp ex_ord ex_init) in
+  /\ (let s := fst (run ex_sc ex_fail13 no_env ex_dp ex_ord ex_init) in
       unbound (s_store s) = true /\ reported (s_store s) (s_crashed s) true = true
       /\ cleanup_unfaulted s = true /\ clean ex_init (s_store s) = true
       /\ s_mark s = Some (17, 1)).
 Proof. exact ex_nonvacuous. Qed.
 Print Assumptions C11_nonvacuous.
+
+(** 14. Non-vacuity of the interleaved statements: a whole-GPU request whose pod
+    is bound to another node right before the binding call meets the hypotheses
+    of theorems 1-3; the code ends in the "nothing" case: no binding call went
+    through (the API server refused it with 409), the request is Failed, the
+    error is returned, Rollback ran unfaulted, nothing is left (8 API calls). *)
+Theorem C11_interleaved_nonvacuous :
+  wf_shape ex_scw = true /\ init_ok ex_init /\ read_unbound (ex_env_at 5 EvBindElsewhere)
+  /\ (let s := fst (run ex_scw (fun _ => Ok) (ex_env_at 5 EvBindElsewhere) ex_dp ex_ord ex_init) in
+      let res := snd (run ex_scw (fun _ => Ok) (ex_env_at 5 EvBindElsewhere) ex_dp ex_ord ex_init) in
+      binds (s_log s) = 0 /\ br (s_store s) = Some (mkBR BFailed 0) /\ snd res = true
+      /\ p_node (self (s_store s)) = 2 /\ cleanup_unfaulted s = true /\ clean ex_init (s_store s) = true
+      /\ length (s_log s) = 8).
+Proof. exact ex_interleaved_nonvacuous. Qed.
+Print Assumptions C11_interleaved_nonvacuous.
